@@ -1,5 +1,8 @@
 //! Kani proof harnesses (engine E1).  See /verif/DESIGN.md.
 #![allow(dead_code)]
+// `core::fmt::Formatter::new` (to drive `Display::fmt` of the re-rooted toml_datetime into a fixed
+// buffer) is unstable; Kani's pinned toolchain is a nightly
+#![cfg_attr(kani, feature(formatting_options))]
 
 #[cfg(kani)]
 mod modules;
